@@ -21,6 +21,7 @@ QUICK = [
     ("gen-packdir", {"nfiles": 4, "ndirs": 4, "bs": 4096, "nohl": True, "samenames": True, "specials": False}, 24),
     ("gen-glob", {"nfiles": 4, "ndirs": 4, "bs": 4096, "nohl": True, "samenames": True, "specials": False}, 8),
     ("gen-glob-partial", {"nfiles": 10, "ndirs": 6, "bs": 4096, "nohl": True}, 24),
+    ("gen-glob-named", {"nfiles": 4, "ndirs": 2, "bs": 4096, "nohl": True, "specials": False}, 6),
     ("gen-glob-partial", {"nfiles": 14, "ndirs": 9, "bs": 4096, "specials": True, "nohl": True}, 12),
 ]
 NPERM = 8
@@ -65,6 +66,31 @@ def build(bdir, seed, kind, prof, cd):
         else:
             lines.append(b"glob / * * * -not -type d -- ./tree" if False else b"glob / * * * -type f -- ./tree")
             lines.append(b"glob / * * * -type p -- ./tree")
+        with open(os.path.join(cd, "pack.txt"), "wb") as f:
+            f.write(b"\n".join(lines) + b"\n")
+        opts = [a for a in case.argv[:-1] if a not in ("-D", "tree", "-k", "-x")]
+        case.argv = opts + ["-F", "pack.txt", "-D", ".", case.argv[-1]]
+        return case
+    if kind == "gen-glob-named":
+        # -name with a literal directory name while siblings carry that name as a prefix / suffix / with another case: which of them end
+        # up in the image must not depend on whether readdir returns them before or after the directory that matches
+        base = r.choice([b"fonts", b"lib", b"a"])
+        tree = os.path.join(cd, "tree")
+        for i, nm in enumerate([base, base + b"-extra", base + b"64", base[:-1] or b"_", b"x" + base, base.upper(), base + b".d"]):
+            d = os.path.join(os.fsencode(tree), nm)
+            if not os.path.lexists(d):
+                os.mkdir(d)
+                os.mkdir(os.path.join(d, b"sub"))
+                for j in range(2):
+                    with open(os.path.join(d, b"sub" if j else b"", b"f%d" % j), "wb") as f:
+                        f.write(b"%d/%d" % (i, j))
+                for x in (os.path.join(d, b"sub", b"f1"), os.path.join(d, b"f0"), os.path.join(d, b"sub"), d):
+                    os.utime(x, (1000, 1000))
+        os.utime(tree, (1000, 1000))
+        hl = b" -nohardlinks" if prof.get("nohl") else b""
+        lines = [b"glob / * * * -name \"%s\"%s -- ./tree" % (base, hl)]
+        if r.random() < 0.5:
+            lines.append(b"glob / * * * -type f -name \"f0\"%s -- ./tree" % hl)
         with open(os.path.join(cd, "pack.txt"), "wb") as f:
             f.write(b"\n".join(lines) + b"\n")
         opts = [a for a in case.argv[:-1] if a not in ("-D", "tree", "-k", "-x")]
